@@ -11,7 +11,7 @@ NOTES = {
  "C17-2": "first missed by C17 (needs an element named template in the XHTML namespace); the XML generator now has that name and namespace.",
  "C18-2": "needs a script that detaches an ancestor at a script pause; C18 now simulates such scripts.",
 }
-for d in sorted(glob.glob(os.path.join(root, "seeded", "C*-*"))):
+for d in sorted(glob.glob(os.path.join(root, "seeded", "C*-*")) + glob.glob(os.path.join(root, "seeded", "r2-C*-*"))):
     name = os.path.basename(d)
     log = os.path.join(d, "eval.log")
     if not os.path.exists(log):
@@ -22,7 +22,13 @@ for d in sorted(glob.glob(os.path.join(root, "seeded", "C*-*"))):
     tests = m.group(0) if m else "?"
     demo = txt.split("== demonstration")[1].split("== my checks")[0] if "== demonstration" in txt else ""
     demo_ok = ("PASS" in demo) and ("FAIL" in demo or "VIOLAT" in demo or "MISMATCH" in demo)
-    checks = re.findall(r"=== (C\d+) on mutant [^\n]*\n(?:[^\n]*\n)*?exit=(\d)", txt.split("== my checks")[1] if "== my checks" in txt else "")
+    checks0 = re.findall(r"=== (C\d+) on mutant [^\n]*\n(?:[^\n]*\n)*?exit=(\d)", txt.split("== my checks")[1] if "== my checks" in txt else "")
+    # final.log (tools/seedmatrix.sh: the committed checks re-run against every seed) wins
+    fin = os.path.join(d, "final.log")
+    checks1 = re.findall(r"=== (C\d+) on mutant [^\n]*\n(?:[^\n]*\n)*?exit=(\d)", open(fin).read()) if os.path.exists(fin) else []
+    seen = {c for c, _ in checks1}
+    checks = checks1 + [(c, e) for c, e in checks0 if c not in seen]
+    first_missed = [c for c, e in checks0 if e == "0" and (c, "1") in checks1]
     caught = [c for c, e in checks if e == "1"]
     missed = [c for c, e in checks if e == "0"]
     inconc = [c for c, e in checks if e == "2"]
@@ -41,6 +47,7 @@ for d in sorted(glob.glob(os.path.join(root, "seeded", "C*-*"))):
         "caught_by_quick_checks": caught,
         "not_flagged_by": missed,
         "inconclusive": inconc,
+        "first_missed_then_strengthened": first_missed,
         "note": NOTES.get(name, ""),
     }
     json.dump(meta, open(meta_p, "w"), indent=1)
